@@ -328,6 +328,16 @@ def build_cases(ctx):
                 for mk in masks:
                     for h in ([1, 10], [-1, 10]):
                         cases.append(dict(section="split", method=M.__name__, dtype=dname, rhs=pn, shape=shp, mask=mk, t=[1000, 3], h=h, seed=seed))
+    # stage equations without a solution (y' = exp(+-y), |h| = 1) and scalar / (1,)-shaped states, through the REAL nonlinear solvers in every precision
+    # (float64: MINPACK first; float32 / longdouble: the built-in path): whatever is handed back must satisfy the stage equations
+    for M in [m_ for m_ in rk if m_ in I.implicit_methods()]:
+        for dname in DTYPES:
+            for pn in ("expgrow", "expdecay"):
+                for shp in ([1], []):
+                    for h in (1.0, -1.0, 0.25):
+                        if ctx.quick and M.__name__ == "RadauIIA19" and (dname != "float64" or shp == []):
+                            continue
+                        cases.append(dict(section="rk", method=M.__name__, dtype=dname, rhs=pn, shape=shp, t=0.0, h=h, seed=seed))
     impl = [M for M in rk if M in I.implicit_methods()]
     maxlen = 3 if ctx.quick else 4
     scripts = [""]
